@@ -1,6 +1,7 @@
 package main
 
 import (
+	"encoding/json"
 	"fmt"
 	"math/rand"
 	"sort"
@@ -140,6 +141,10 @@ func c02LoadPrograms(ctx *Ctx) [][]tStmt {
 		h := w(*cond("$m.name"))
 		readers = append(readers, tStmt{Op: "has", Has: &h})
 	}
+	// the reserved fields of a mark (and what lies below _data) are reads of the mark's element like any other
+	for _, k := range []string{"$m._gid", "$m._label", "$m._data", "$m._data.w", "$m._from", "$m._to", "$m"} {
+		readers = append(readers, tStmt{Op: "has", Has: cond(k)}, tStmt{Op: "render", Tpl: k}, tStmt{Op: "hasKey", Strs: []string{k}}, tStmt{Op: "distinct", Strs: []string{k}})
+	}
 	for _, r := range readers {
 		for _, mv := range []string{"out", "outE", "both"} {
 			out = append(out, []tStmt{{Op: "V"}, {Op: "as", Str: "m"}, {Op: mv}, r},
@@ -148,6 +153,101 @@ func c02LoadPrograms(ctx *Ctx) [][]tStmt {
 		}
 	}
 	n := ctx.Pick(500, 5000)
+	for i := 0; i < n; i++ {
+		p := []tStmt{{Op: []string{"V", "V", "E"}[rng.Intn(3)]}}
+		for k := 1 + rng.Intn(7); k > 0; k-- {
+			p = append(p, pieces[rng.Intn(len(pieces))])
+		}
+		out = append(out, p)
+	}
+	return out
+}
+
+// ---------- programs with statements outside the model's traversal alphabet ----------
+func xstmtCoq(s tStmt) string {
+	switch s.Op {
+	case "aggregate":
+		fs := []string{}
+		for _, a := range s.Aggs {
+			if a.Kind != "count" {
+				fs = append(fs, a.Field)
+			}
+		}
+		return "(XAggregate " + coq.StrList(fs) + ")"
+	case "set":
+		return "(XSet " + coq.Str(s.Str) + ")"
+	case "increment":
+		return "(XIncrement " + coq.Str(s.Str) + ")"
+	case "jump":
+		if s.Has == nil {
+			return "(XJump None)"
+		}
+		return "(XJump (Some " + s.Has.coq() + "))"
+	case "mark":
+		return "XMark"
+	case "outNull", "inNull", "outENull", "inENull":
+		return "XNullMove"
+	}
+	return "(XS " + s.coq() + ")"
+}
+
+func addLoadXCases(ctx *Ctx, progs [][]tStmt) {
+	for _, p := range progs {
+		t := tablesOf(progProto(p))
+		items := make([]string, len(p))
+		for i, s := range p {
+			items[i] = xstmtCoq(s)
+		}
+		c := "(CLoadX " + coq.List(items) + " " + t.stepsCoq + " " + t.outsCoq + ")"
+		tags := []string{"load-x", "len=" + bucket(len(p))}
+		seen := map[string]bool{}
+		for _, s := range p {
+			switch s.Op {
+			case "aggregate", "set", "increment", "jump", "mark", "outNull", "inNull", "outENull", "inENull":
+				if !seen[s.Op] {
+					seen[s.Op] = true
+					tags = append(tags, "load-x="+s.Op)
+				}
+			}
+		}
+		key, _ := json.Marshal(p)
+		ctx.Add(Case{Input: c01Input{Driver: "loadx", Prog: p}, Observed: map[string]interface{}{"steps": t.steps, "outputs": t.outs}, Coq: c,
+			Nontrivial: t.elided > 0 && len(p) >= 3, Key: "loadx:" + string(key), Tags: tags})
+	}
+}
+
+func c02LoadXPrograms(ctx *Ctx) [][]tStmt {
+	rng := rand.New(rand.NewSource(ctx.Rng.Int63()))
+	cond := func(k string) *hExpr { return &hExpr{Kind: "cond", Key: k, Op: "lt", Arg: 3.0} }
+	agg := func(fields ...string) tStmt {
+		as := []tAgg{{Name: "c", Kind: "count"}}
+		kinds := []string{"term", "histogram", "percentile", "field", "type"}
+		for i, f := range fields {
+			a := tAgg{Name: fmt.Sprintf("a%d", i), Kind: kinds[i%len(kinds)], Field: f}
+			if a.Kind == "histogram" {
+				a.Interval = 5
+			}
+			if a.Kind == "percentile" {
+				a.Percents = []float64{50}
+			}
+			as = append(as, a)
+		}
+		return tStmt{Op: "aggregate", Aggs: as}
+	}
+	pieces := []tStmt{
+		{Op: "out"}, {Op: "outE"}, {Op: "both"}, {Op: "in"}, {Op: "as", Str: "m"}, {Op: "as", Str: "n"}, {Op: "as", Str: "m"},
+		{Op: "outNull"}, {Op: "inNull", Strs: []string{"l"}}, {Op: "outENull"}, {Op: "inENull"},
+		agg("name"), agg("$m.w", "$n.w"), agg("$m.name", "w", "$zz.x", "name", "$.tags"), agg(),
+		{Op: "set", Str: "c", Tpl: 0.0}, {Op: "set", Str: "$m.c", Tpl: 1.0}, {Op: "increment", Str: "$m.c", N: 1}, {Op: "increment", Str: "c", N: 1}, {Op: "increment", Str: "$zz.c", N: 1},
+		{Op: "mark", Str: "s"}, {Op: "jump", Str: "s"}, {Op: "jump", Str: "s", Has: cond("$m.c"), N: 1}, {Op: "jump", Str: "s", Has: &hExpr{Kind: "not", Es: []hExpr{*cond("$n.c")}}},
+		{Op: "has", Has: cond("$m.c")}, {Op: "hasLabel", Strs: []string{"P"}}, {Op: "count"}, {Op: "select", Strs: []string{"m"}}, {Op: "limit", N: 2}, {Op: "distinct", Strs: []string{"$n.w"}},
+	}
+	out := [][]tStmt{
+		{{Op: "V"}, {Op: "outNull"}}, {{Op: "V"}, {Op: "outENull"}, {Op: "count"}}, {{Op: "V"}, {Op: "as", Str: "m"}, {Op: "out"}, agg("$m.w")},
+		{{Op: "V"}, {Op: "as", Str: "m"}, {Op: "set", Str: "$m.c", Tpl: 0.0}, {Op: "mark", Str: "s"}, {Op: "out"}, {Op: "increment", Str: "$m.c", N: 1}, {Op: "jump", Str: "s", Has: cond("$m.c"), N: 1}},
+		{{Op: "V"}, {Op: "as", Str: "m"}, {Op: "out"}, {Op: "jump", Str: "s", Has: cond("$m.c")}, {Op: "out"}, {Op: "mark", Str: "s"}, {Op: "count"}},
+	}
+	n := ctx.Pick(400, 4000)
 	for i := 0; i < n; i++ {
 		p := []tStmt{{Op: []string{"V", "V", "E"}[rng.Intn(3)]}}
 		for k := 1 + rng.Intn(7); k > 0; k-- {
